@@ -277,7 +277,7 @@ def write_evidence(prop, tier, seed, results, violations, known_lines, wall, cra
         trusted_base=assumptions + ["A2 the proxy classes and the AST rewrites of pyvc/amode.py are faithful to CPython/numpy",
                                     "A6 z3 is correct"],
         functions_under_contract=fns,
-        by_backend={"z3": inst},
+        by_backend=_by_backend(results),
         solver_s=round(sum(r.get("solver_s", 0) for r in results), 3),
         bounded=[dict(job=r["job"], target=r["target"], bound=r.get("bound"), obligations=len(r["obligations"]),
                       discharged=sum(1 for o in r["obligations"] if o["status"] == "unsat")) for r in bounded_jobs],
@@ -301,6 +301,15 @@ def write_evidence(prop, tier, seed, results, violations, known_lines, wall, cra
         if r.get("rewritten_source"):
             open(os.path.join(VERIF, "evidence", "rewritten", "%s.%s.py" % (prop, r["job"])), "w").write(
                 "# %s -- rewritten by pyvc/amode.py from the current /repo source; loops cut: %s\n" % (r["target"], r.get("loops_cut")) + r["rewritten_source"] + "\n")
+
+
+def _by_backend(results):
+    out = {}
+    for r in results:
+        for o in r["obligations"]:
+            b = o.get("backend") or "z3"
+            out[b] = out.get(b, 0) + 1
+    return out
 
 
 def _z3v():
